@@ -13,7 +13,7 @@ import math
 
 import numpy as np
 
-from mc import drive, util, world
+from mc import drive, scriptrng, util, world
 
 ID = "C09"
 LEVEL = "model_checking"
@@ -93,21 +93,11 @@ def start_positions(w, lim):
     return P
 
 
-class Script:
-    """Scripted generator for Tracker.rng: zeros, with scripted deviations. Call 2k = U of step k, 2k+1 = V of step k."""
-
-    def __init__(self, dev):
-        self.dev, self.calls = dev, 0
-
-    def normal(self, *a, size=None, **kw):
-        if a or kw or size is None:
-            raise util.HarnessError("unexpected use of the random generator")
-        out = np.zeros(size)
-        for (call, idx), val in self.dev.items():
-            if call == self.calls and idx < size:
-                out[idx] = val
-        self.calls += 1
-        return out
+def script_of(dev, n):
+    """dev = {(2*step + component, particle): kick}. In the stream of scalars the tracker draws in a step, the kick sits where the
+    plain structure (one normal(size=n) for U, then one for V) would use it: position component*n + particle. Where the tracker really
+    uses it is inferred by the oracle (see run_exact)."""
+    return scriptrng.Placed({(c // 2, (c % 2) * n + k): v for (c, k), v in (dev or {}).items()})
 
 
 def run_exact(case, dev=None):
@@ -134,11 +124,12 @@ def run_exact(case, dev=None):
     D = DX * DX / (2 * DT)  # sqrt(2 D dt)/dx = 1 cell per unit normal deviate
     tr = Tracker(advection=case.get("scheme", "EF"), diffusion=D if dev is not None else 0.0, modules=mods)
     mods["tracker"] = tr
-    if dev is not None:
-        tr.rng = Script(dev)
     P = start_positions(w, lim)
     st.append(X=np.array([p[0] for p in P]), Y=np.array([p[1] for p in P]), Z=5.0)
     n = len(P)
+    rng = None
+    if dev is not None:
+        tr.rng = rng = script_of(dev, n)
     # the grid's own notions of "at sea" and "on land" must be complementary everywhere, also exactly on the cell edges
     hx = np.arange(lim[0] + 0.5, lim[1] - 1.0, 0.25)
     hy = np.arange(lim[2] + 0.5, lim[3] - 1.0, 0.25)
@@ -154,44 +145,77 @@ def run_exact(case, dev=None):
     alive, active = [True] * n, [True] * n
     bad, facts = [], dict(left=0, land=0, n=n)
     inactive_idx = n // 3
+
+    def ref_step(step, kicks):
+        """Reference semantics of one step for a given assignment {(particle, component): kick}; compares with the real state.
+        Returns (mismatches, new pos, new alive, new active, facts increment)."""
+        npos, nalive, nactive = [list(p) for p in pos], list(alive), list(active)
+        out, inc = [], dict(left=0, land=0)
+        for k in range(n):
+            dx_ = vx + kicks.get((k, 0), 0.0)
+            dy_ = vy + kicks.get((k, 1), 0.0)
+            tx, ty = pos[k][0] + dx_, pos[k][1] + dy_
+            inside = lim[0] + 0.5 < tx < lim[1] - 1.5 and lim[2] + 0.5 < ty < lim[3] - 1.5
+            lenient_dead = False
+            if alive[k] and active[k]:
+                if not inside:
+                    nalive[k] = nactive[k] = False
+                    inc["left"] += 1
+                elif w.mask[int(round(ty)), int(round(tx))] < 1:
+                    inc["land"] += 1
+                else:
+                    npos[k] = [tx, ty]
+            elif alive[k] and not active[k] and not inside:
+                lenient_dead = True
+            gx, gy, ga = float(st.X[k]), float(st.Y[k]), bool(st.alive[k])
+            if abs(gx - npos[k][0]) > 1e-9 or abs(gy - npos[k][1]) > 1e-9:
+                why = "inactive particle moved" if not active[k] and alive[k] else "dead particle moved" if not alive[k] else \
+                      "moved onto land / move not cancelled" if w.mask[int(round(gy)) if 0 <= round(gy) < 7 else 0, int(round(gx)) if 0 <= round(gx) < 8 else 0] < 1 else "wrong position"
+                sig = "position:" + why.split(" /")[0].replace(" ", "-")
+                out.append((sig, f"step {step} particle {k} start {P[k]}: at ({gx},{gy}) expected ({npos[k][0]},{npos[k][1]}) [{why}]"))
+            if ga != nalive[k] and not (lenient_dead and not ga):
+                sig = "alive:resurrected-or-not-killed" if ga else "alive:killed-wrongly"
+                out.append((sig, f"step {step} particle {k} start {P[k]}: alive={ga} expected {nalive[k]} (target ({tx:.3f},{ty:.3f}) inside={inside})"))
+            if lenient_dead and not ga:
+                nalive[k] = False
+        return out, npos, nalive, nactive, inc
+
     for step in range(4):
         mods["time"].update()
         fo.update()
         if step == 1:  # an IBM makes one particle inactive (settled)
             st["active"][inactive_idx] = False
             active[inactive_idx] = False
+        if rng is not None and step:
+            rng.next_step()
         try:
             tr.update()
+        except util.HarnessError:
+            raise
         except Exception as e:
             return [("exception", f"step {step}: tracker.update raised {e!r}")], facts
+        default = {(k, c % 2): v for (c, k), v in (dev or {}).items() if c // 2 == step}
+        res = ref_step(step, default)
+        if res[0] and default:
+            # The statement does not fix which drawn number drives which particle and direction. Before reporting, every assignment of
+            # this step's non-zero draws to (particle, direction) slots - each draw used at most once, or not at all - is tried.
+            vals = [float(v) for v in rng.drawn_this_step() if v != 0.0]
+            slots = [None] + [(k, c) for k in range(n) for c in (0, 1)]
+            for assign in itertools.product(slots, repeat=len(vals)):
+                used = [a for a in assign if a is not None]
+                if len(set(used)) != len(used):
+                    continue
+                alt = ref_step(step, {a: v for a, v in zip(assign, vals) if a is not None})
+                if not alt[0]:
+                    res = alt
+                    break
+        mism, pos, alive, active, inc = res
+        bad += mism
+        facts["left"] += inc["left"]
+        facts["land"] += inc["land"]
+        # statement-level invariants on the real state
         for k in range(n):
-            dx_ = vx + (dev or {}).get((2 * step, k), 0.0)
-            dy_ = vy + (dev or {}).get((2 * step + 1, k), 0.0)
-            tx, ty = pos[k][0] + dx_, pos[k][1] + dy_
-            inside = lim[0] + 0.5 < tx < lim[1] - 1.5 and lim[2] + 0.5 < ty < lim[3] - 1.5
-            lenient_dead = False
-            if alive[k] and active[k]:
-                if not inside:
-                    alive[k] = active[k] = False
-                    facts["left"] += 1
-                elif w.mask[int(round(ty)), int(round(tx))] < 1:
-                    facts["land"] += 1
-                else:
-                    pos[k] = [tx, ty]
-            elif alive[k] and not active[k] and not inside:
-                lenient_dead = True
             gx, gy, ga = float(st.X[k]), float(st.Y[k]), bool(st.alive[k])
-            if abs(gx - pos[k][0]) > 1e-9 or abs(gy - pos[k][1]) > 1e-9:
-                why = "inactive particle moved" if not active[k] and alive[k] else "dead particle moved" if not alive[k] else \
-                      "moved onto land / move not cancelled" if w.mask[int(round(gy)) if 0 <= round(gy) < 7 else 0, int(round(gx)) if 0 <= round(gx) < 8 else 0] < 1 else "wrong position"
-                sig = "position:" + why.split(" /")[0].replace(" ", "-")
-                bad.append((sig, f"step {step} particle {k} start {P[k]}: at ({gx},{gy}) expected ({pos[k][0]},{pos[k][1]}) [{why}]"))
-            if ga != alive[k] and not (lenient_dead and not ga):
-                sig = "alive:resurrected-or-not-killed" if ga else "alive:killed-wrongly"
-                bad.append((sig, f"step {step} particle {k} start {P[k]}: alive={ga} expected {alive[k]} (target ({tx:.3f},{ty:.3f}) inside={inside})"))
-            if lenient_dead and not ga:
-                alive[k] = False
-            # statement-level invariants on the real state
             if ga:
                 if not (math.isfinite(gx) and math.isfinite(gy)):
                     bad.append(("invariant:not-finite", f"step {step} particle {k}: ({gx},{gy})"))
@@ -199,8 +223,8 @@ def run_exact(case, dev=None):
                     bad.append(("invariant:outside-valid-region", f"step {step} particle {k}: living particle at ({gx},{gy}) outside the valid region of {lim}"))
                 elif w.mask[int(round(gy)), int(round(gx))] < 1:
                     bad.append(("invariant:on-land", f"step {step} particle {k}: living particle at ({gx},{gy}) in a land cell"))
-            if len(bad) >= 3:
-                return bad, facts
+        if len(bad) >= 3:
+            return bad[:3], facts
     return bad, facts
 
 
